@@ -41,3 +41,9 @@ package upstream
 //@   ensures [C16:udp-error] eU != nil ==> nT == 0 && r == nil && err == eU
 //@   ensures [C16:not-truncated] eU == nil && !tcU ==> nT == 0 && r == rU && err == nil
 //@   ensures [C16:truncated-retry] eU == nil && tcU ==> nT == 1 && r == rT && err == eT
+
+//@ func NewUpstream(addr string, opt Opt) (u Upstream, err error)
+//@   trusted
+//@   modifies nothing
+//@   ensures err == nil ==> u != nil
+//@   ensures err != nil ==> u == nil
